@@ -638,7 +638,7 @@ def chunk(cs):
 
 def run(tier='quick', seed=0):
     rng = random.Random(seed)
-    nd, nc, ns, nt = (2500, 500, 96, 320) if tier == 'quick' else (60000, 10000, 2000, 6000)
+    nd, nc, ns, nt = (2500, 500, 96, 256) if tier == 'quick' else (60000, 10000, 2000, 6000)
     cases = [gen_case(rng, k) for k in ('at', 'as', 'weight', 'position') for _ in range(nd)]
     # collapse_cost (collapse of *bounds*) is not among the detectors of the C11 statement (parameters, pairs,
     # measure weights/positions): it is not demanded here (a defect in it was observed, see DESIGN section 5, O5)
